@@ -53,6 +53,12 @@ func (r *Run) execHelper(ctx context.Context, op *Op) {
 		hc.Bound = op.T.Resolve(r.M, sim.NowUS())
 	}
 	r.Ctx["helper"] = hc
+	if r.H.BeforeHelper != nil {
+		r.H.BeforeHelper(r, op, hc)
+		if r.stopped() {
+			return
+		}
+	}
 	bo := r.backoff(op.C)
 	tm := time.UnixMicro(hc.Bound)
 	var got []klevdb.Message
